@@ -924,6 +924,13 @@ def method_of(I, o, name):
             return Builtin("bytes.fromhex", _fromhex)
     if isinstance(o, Builtin) and isinstance(o.fn, (IntType, BytesType)):
         return method_of(I, o.fn, name)
+    if isinstance(o, Builtin) and o.name == "dict" and name == "fromkeys":
+        def fromkeys(I, keys, value=None):
+            d = {}
+            for k in I.iterate(keys):
+                d[I.dict_key(k)] = value          # ONE value object shared by all keys, as in CPython
+            return d
+        return Builtin("dict.fromkeys", fromkeys)
     if isinstance(o, Builtin) and o.name == "bytearray" and name == "fromhex":
         return Builtin("bytearray.fromhex", lambda I, s: ByteArr(_fromhex(I, s)))
     if isinstance(o, (int, SymInt)) and not isinstance(o, bool):
